@@ -3,6 +3,7 @@
 A breaking mutant must produce VIOLATION (exit 1) for every expected property; a harmless one must stay exit 0."""
 import subprocess, os, sys, json, shutil, tempfile, re, concurrent.futures
 ROOT = os.path.dirname(os.path.dirname(os.path.abspath(__file__)))
+ONLY_PROP = None
 def run_one(patch):
     name = os.path.basename(patch)[:-6]
     head = open(patch).read().split("\n")
@@ -15,7 +16,7 @@ def run_one(patch):
         if p.returncode != 0: return (name, "PATCH-FAILED", p.stdout[-300:])
         res = []
         ok = True
-        for prop in expect.get("props", []):
+        for prop in [p for p in expect.get("props", []) if ONLY_PROP is None or p == ONLY_PROP]:
             r = subprocess.run([os.path.join(ROOT, "check"), prop, "--repo", rp, "--no-evidence"], cwd=ROOT, stdout=subprocess.PIPE, stderr=subprocess.STDOUT, text=True)
             viol = [l for l in r.stdout.split("\n") if l.startswith("VIOLATION")]
             obs = sorted({re.search(r"obligation=(\S+)", l).group(1) for l in viol})
@@ -29,14 +30,27 @@ def run_one(patch):
         return (name, "ok" if ok else "MISSED", "; ".join(res))
     finally:
         shutil.rmtree(td, ignore_errors=True)
+def expect_of(patch):
+    head = open(patch).read().split("\n")
+    return json.loads([l for l in head if l.startswith("# expect:")][0][len("# expect:"):])
 def main():
-    only = set(sys.argv[1:])
+    args = sys.argv[1:]
+    prop = None; as_json = False
+    if "--prop" in args: i = args.index("--prop"); prop = args[i + 1]; del args[i:i + 2]
+    if "--json" in args: as_json = True; args.remove("--json")
+    only = set(args)
     patches = sorted(os.path.join(ROOT, "mutants", f) for f in os.listdir(os.path.join(ROOT, "mutants")) if f.endswith(".patch"))
     if only: patches = [p for p in patches if os.path.basename(p)[:-6] in only or any(os.path.basename(p).startswith(o) for o in only)]
-    bad = 0
-    with concurrent.futures.ThreadPoolExecutor(max_workers=4) as ex:
+    if prop: patches = [p for p in patches if prop in expect_of(p).get("props", [])]
+    bad = 0; rows = []
+    global ONLY_PROP
+    ONLY_PROP = prop
+    with concurrent.futures.ThreadPoolExecutor(max_workers=6) as ex:
         for name, verdict, detail in ex.map(run_one, patches):
-            print("%-42s %-7s %s" % (name, verdict, detail)); bad += verdict != "ok"
-    print("audit: %d mutants, %d not as expected" % (len(patches), bad))
+            rows.append({"mutant": name, "verdict": verdict, "detail": detail})
+            if not as_json: print("%-42s %-7s %s" % (name, verdict, detail))
+            bad += verdict != "ok"
+    if as_json: print(json.dumps({"mutants": len(patches), "not_as_expected": bad, "rows": rows}))
+    else: print("audit: %d mutants, %d not as expected" % (len(patches), bad))
     return 1 if bad else 0
 if __name__ == "__main__": sys.exit(main())
